@@ -828,6 +828,20 @@ func main() {
 		}
 		specialMICs(s, r, rounds)
 	}
+	{ // join-request whose true MIC is 00000000 (checked here with the independent CMAC before it is used)
+		k := lorawan.AES128Key{0x2b, 0x7e, 0x15, 0x16, 0x28, 0xae, 0xd2, 0xa6, 0xab, 0xf7, 0x15, 0x88, 0x09, 0xcf, 0x4f, 0x3c}
+		jr := lorawan.PHYPayload{MHDR: lorawan.MHDR{MType: lorawan.JoinRequest, Major: lorawan.LoRaWANR1},
+			MACPayload: &lorawan.JoinRequestPayload{JoinEUI: lorawan.EUI64{0x70, 0xb3, 0xd5, 0x7e, 0xd0, 0x00, 0x10, 0x2a},
+				DevEUI: lorawan.EUI64{0x00, 0x80, 0x00, 0x00, 0xa0, 0x01, 0x56, 0x09}, DevNonce: 38150}}
+		msg := []byte{0x00, 0x2a, 0x10, 0x00, 0xd0, 0x7e, 0xd5, 0xb3, 0x70, 0x09, 0x56, 0x01, 0xa0, 0x00, 0x00, 0x80, 0x00, byte(38150 & 0xff), byte(38150 >> 8)}
+		if t := micforge.New(k).CMAC(msg); t[0] == 0 && t[1] == 0 && t[2] == 0 && t[3] == 0 {
+			upJoin(s, r, jr, k, 0, "forged-mic-00000000")
+			upJoin(s, r, jr, k, 3, "forged-mic-00000000")
+			s.Extra["join_request_vector_with_mic_00000000"] = "confirmed by the independent CMAC"
+		} else {
+			s.Extra["join_request_vector_with_mic_00000000"] = "NOT confirmed by the independent CMAC: " + hx(t[:4])
+		}
+	}
 	for i := 0; i < n; i++ {
 		how := i % 3
 		// uplink join MICs: join-request, rejoin 0, 2, 1
